@@ -4,6 +4,7 @@ injective, and parent links name the enclosing context."""
 from __future__ import annotations
 
 import hashlib
+import json
 
 META = {
     "rule": "random structural positions (depth 1-6, indices 0-3000 incl. 0, multi-digit and boundary values); "
@@ -83,6 +84,34 @@ def check_paths(ctx, paths, component="ident"):
     return table
 
 
+def check_cross_process(ctx, prop="C08", component="ident.process"):
+    """The id of a position is the same in every PROCESS: invocations of one execution run in different sandboxes, and
+    Python salts `hash()` of strings per interpreter.  Two fresh interpreters with different hash seeds compute the ids of
+    the same paths; they must agree with each other and with this process."""
+    import os
+    import subprocess
+    import sys as _sys
+    paths = [[1], [2, 1], [1, 1, 3], [3, 2, 1, 2], [10, 1]]
+    code = ("import json,sys\n"
+            "from harness.props.C08 import impl_ids\n"
+            "print(json.dumps([impl_ids(p) for p in json.loads(sys.argv[1])]))\n")
+    outs = []
+    for hs in ("11", "12"):
+        env = dict(os.environ, PYTHONHASHSEED=hs, PYTHONPATH=os.pathsep.join(p_ for p_ in _sys.path if p_))
+        r = subprocess.run([_sys.executable, "-c", code, json.dumps(paths)], capture_output=True, text=True, timeout=120, env=env)
+        if r.returncode != 0:
+            ctx.disagree(component, {"paths": paths, "hashseed": hs}, r.stderr[-300:], None, "child interpreter failed")
+            return
+        outs.append(json.loads(r.stdout))
+    here = [[list(x) for x in impl_ids(p_)] for p_ in paths]
+    ctx.case(("cross-process",))
+    ctx.count("ident.cross_process")
+    for p_, a, b, c in zip(paths, outs[0], outs[1], here):
+        if a != b or a != c:
+            ctx.violate(f"{prop}.operation_id_differs_between_processes", {"path": p_, "hashseeds": [11, 12]},
+                        {"seed11": a[-1], "seed12": b[-1], "this_process": c[-1]}, component)
+
+
 def check_counter(ctx, n):
     """The per-context counter hands out 1..n; ids equal the ids of logical steps 1..n."""
     root = _mk_root()
@@ -137,6 +166,7 @@ def check_fresh_context_concurrent(ctx, n):
 
 
 def run(ctx):
+    check_cross_process(ctx)
     check_fresh_context_concurrent(ctx, ctx.scale(120, 3000))
     n = ctx.scale(400, 8000)
     paths = [gen_path(ctx.rng) for _ in range(n)]
@@ -164,6 +194,7 @@ def run(ctx):
     # (retries, failures, replays), compared with the engine model as well
     from harness import comp_engine
     comp_engine.run(ctx, "C08", n_quick=150, n_thorough=3000)
+    comp_engine.extra(ctx, "C08")
 
 
 def search(ctx):
@@ -186,7 +217,9 @@ def replay(ctx, rec):
         from harness import comp_engine
         comp_engine.replay(ctx, rec, "C08")
         return
-    if "paths" in case:
+    if "hashseeds" in case:
+        check_cross_process(ctx)
+    elif "paths" in case:
         check_paths(ctx, case["paths"])
     elif "path" in case:
         check_paths(ctx, [case["path"]])
